@@ -31,7 +31,8 @@ PROPS = {
           "amounts: decimal strings (0-25 integer digits incl. values around 2^63/1e8, 2^64/1e8, 2^63, 2^64; 0-12 fraction digits; leading zeros; junk characters); "
           "oracle: nil error => result == value*1e8 exactly (math/big), canonical in-range strings with <=8 decimals are accepted. "
           "Non-trivial = text reaches the decoder's length accounting (accepted, or rejected-but-structurally-valid) / amount has a fraction or >=12 digits; distinct by text.",
-          quick=(4, 6000), thorough=(16, 150000), timeout=(300, 2400)),
+          quick=(4, 6000), thorough=(16, 150000), timeout=(300, 2400),
+          fuzz=[("FuzzC20Batch", 120, "batch"), ("FuzzC20Amount", 60, "amount")]),
  "C19": P("TestC19", "exploration",
           "rapid generates histories of 1-5 sessions (build sync-version 0..4, or a pre-tracking build as a prefix; 0-6 blocks each) and 0-3 forks "
           "(heights from 3 below the start to 3 above the tip, minimum versions 0..4) on top of the base {0,-1}; every session runs for real "
